@@ -11,8 +11,8 @@ Proof. intros l base e H. apply leaked_range in H. lia. Qed.
 Lemma leaked_nodup : forall l base, NoDup (leaked base l).
 Proof.
   induction l as [|s r IH]; intros base; [constructor|].
-  destruct s; cbn [leaked]; try apply IH. destruct (existsb (frees id) r); [apply IH|].
-  constructor; [|apply IH]. intros H. apply leaked_above in H. cbn in H. lia.
+  destruct s; cbn [leaked]; try apply IH;
+    (destruct (existsb (frees id) r); [apply IH|]; constructor; [|apply IH]; intros H; apply leaked_above in H; cbn in H; lia).
 Qed.
 
 Lemma pair_eqb_eq x y : pair_eqb x y = true -> x = y.
